@@ -1,4 +1,7 @@
 import ElexModel.Core.S3
+import ElexModel.Gen.C19
+import Mathlib.Data.Rat.Defs
+import Mathlib.Tactic.Linarith
 
 /-!
 # C19 — version retrieval returns exactly the requested window despite paging and faults
@@ -246,5 +249,61 @@ example : listVersions 1 (some 3) (some 9) exHist.length exHist
     = [⟨9,1⟩, ⟨9,2⟩, ⟨7,3⟩, ⟨5,4⟩, ⟨4,5⟩, ⟨3,6⟩] := by decide
 example : get 2 (some 3) (some 9) 1 [3] exHist = some [⟨9,1⟩, ⟨4,5⟩] := by decide
 example : get 2 (some 11) none 0 [] exHist = none := by decide
+
+end ElexModel.S3
+
+/-! ### bridge: `S3VersionUtil` as it is in `/repo/src` on this run -/
+
+namespace ElexModel.S3
+
+theorem bridge_filters (s e : ℤ) (v : Ver) :
+    geS (some s) v = Gen.C19.keep_after_start v.ts s ∧ leE (some e) v = Gen.C19.keep_before_end v.ts e := by
+  unfold geS leE Gen.C19.keep_after_start Gen.C19.keep_before_end
+  constructor
+  · by_cases h : s ≤ v.ts
+    · have : ((v.ts : ℚ) ≥ (s : ℚ)) := by exact_mod_cast h
+      simp [h, this]
+    · have : ¬ ((v.ts : ℚ) ≥ (s : ℚ)) := by intro h'; exact h (by exact_mod_cast h')
+      simp [h, this]
+  · by_cases h : v.ts ≤ e
+    · have : ((v.ts : ℚ) ≤ (e : ℚ)) := by exact_mod_cast h
+      simp [h, this]
+    · have : ¬ ((v.ts : ℚ) ≤ (e : ℚ)) := by intro h'; exact h (by exact_mod_cast h')
+      simp [h, this]
+
+/-- the paging decision of the source (`IsTruncated and len(versions) > 0 and (start is None or last >= start)`) is `cont` -/
+theorem bridge_cont (s : Option ℤ) (page rem : List Ver) (l : Ver) (hl : page.getLast? = some l) :
+    cont s page rem = Gen.C19.continue_cond (!rem.isEmpty) (page.length : ℚ) s.isNone l.ts (s.getD 0) := by
+  have hne : page ≠ [] := by intro h; simp [h] at hl
+  have hlen : (0 : ℚ) < (page.length : ℚ) := by
+    have : 0 < page.length := List.length_pos_iff.mpr hne
+    exact_mod_cast this
+  unfold cont Gen.C19.continue_cond
+  rw [hl]
+  have hpe : page.isEmpty = false := by simpa using hne
+  cases s with
+  | none => simp [geS, hpe, hlen]
+  | some s =>
+    have := (bridge_filters s 0 l).1
+    simp only [Option.isNone_some, Option.getD_some, Bool.false_or, hpe, Bool.not_false, Bool.and_true]
+    rw [this]
+    unfold Gen.C19.keep_after_start
+    simp [hlen]
+
+theorem bridge_cont_empty (s : Option ℤ) (rem : List Ver) : cont s [] rem = false := by simp [cont]
+
+/-- recursion markers, filters at every level, sampling slice, empty listing, FIFO queue, a failed download is swallowed -/
+theorem bridge_shape :
+    Gen.C19.recursive_call = ["path", "KeyMarker=response['NextKeyMarker']", "VersionIdMarker=response['NextVersionIdMarker']"] ∧
+    Gen.C19.recursive_combination = ["versions += self.list_versions(path, KeyMarker=response['NextKeyMarker'], VersionIdMarker=response['NextVersionIdMarker'])"] ∧
+    Gen.C19.filter_statements = ["versions = list(filter(lambda v: v['LastModified'] >= self.start_date, versions))", "versions = list(filter(lambda v: v['LastModified'] <= self.end_date, versions))"] ∧
+    Gen.C19.list_statements = ["response = self.s3_client.list_object_versions(Bucket=self.bucket_name, Prefix=path, **kwargs)", "versions = []", "if 'Versions' in response:     versions = response['Versions']", "return versions"] ∧
+    Gen.C19.sampling = ["versions[::sample]", "self.wait_for_versions(q)"] ∧
+    Gen.C19.empty_listing = ["len(versions) == 0 -> return None"] ∧
+    Gen.C19.queue_put = ["q.put(self.make_request(path, version=version), block=False)"] ∧
+    Gen.C19.wait_try = ["future.result()", "yield (version, data)"] ∧
+    Gen.C19.wait_except = ["Exception", "swallows"] ∧
+    Gen.C19.wait_loop = ["not q.empty()", "version, data, future = q.get()", "q.task_done()"] :=
+  ⟨rfl, rfl, rfl, rfl, rfl, rfl, rfl, rfl, rfl, rfl⟩
 
 end ElexModel.S3
